@@ -132,6 +132,9 @@ func GenCall(t *rapid.T, c Case, b Bias, i int) Op {
 		case 3:
 			spec.Ctx = "cancel"
 		}
+		if spec.Ctx != "background" && rapid.IntRange(0, 3).Draw(t, l("cause")) == 0 {
+			spec.Cause = true // the context ends with a cause of the caller's own
+		}
 	}
 	op.Call = spec
 	// handler behaviours
